@@ -11,7 +11,7 @@
    the request, [mac] only for the MAC inputs of the datagrams the answers
    belong to. *)
 From Coq Require Import ZArith List String Bool.
-From ST Require Import Base.Ints Base.Value Model.ScionGlue Model.ScionGlueOracle Extract.GlueBase.
+From ST Require Import Base.Ints Base.Value Model.ScionGlue Model.ScionGlueOracle Model.DrkeyCache Extract.GlueBase.
 Import ListNotations.
 Open Scope list_scope.
 Open Scope Z_scope.
@@ -140,6 +140,17 @@ Definition count_ts (os : list opt) : Z := zlen (filter (fun o => o_type o =? OP
 Definition last_ts (os : list opt) : bytes :=
   match rev (filter (fun o => o_type o =? OPT_TIMESTAMP) os) with o :: _ => o_data o | [] => [] end.
 
+Fixpoint parse_kreqs (l : list value) : option (list kreq) :=
+  match l with
+  | [] => Some []
+  | VL [VZ hh; VZ p; VZ f; VZ sl; VB fh; VB sh; VZ ok] :: r =>
+      match parse_kreqs r with
+      | Some ks => Some (mkKreq (negb (hh =? 0)) p f sl fh sh (negb (ok =? 0)) :: ks)
+      | None => None
+      end
+  | _ => None
+  end.
+
 Definition scfg_of (listener lp dscp : Z) : scfg :=
   if listener =? 0 then mkScfg lp lp dscp true
   else if listener =? 1 then mkScfg lp endhost_port dscp true
@@ -147,7 +158,7 @@ Definition scfg_of (listener lp dscp : Z) : scfg :=
 
 (* keyok: the DRKey daemon hands out a key for this request; epochok: of the current epoch
    (looked at by the strict kind only) *)
-Definition srv_step (strict keyok epochok : bool) (lp dscp : Z) (socks : list (bytes * Z)) (listener sender : Z) (q : pview) (obs : list (Z * pview)) (nsent : Z)
+Definition srv_step (strict scmpstrict keyok epochok : bool) (kreqs : list kreq) (lp dscp : Z) (socks : list (bytes * Z)) (listener sender : Z) (q : pview) (obs : list (Z * pview)) (nsent : Z)
   : bool * bool :=
   let c := scfg_of listener lp dscp in
   let qr := pv_rx q in
@@ -155,7 +166,12 @@ Definition srv_step (strict keyok epochok : bool) (lp dscp : Z) (socks : list (b
   let macf := fun (_ : bytes) mi => mac_lookup tbl mi in
   let revf := fun (p : Z * bytes) =>
                 if (fst p =? h_path_type (rx_hdr qr)) && bytes_eqb (snd p) (h_path (rx_hdr qr)) then pv_rev q else None in
-  let keyf := fun (_ : keyreq) => if keyok then Some zero_key else None in
+  (* the key source answers the model only if the model asks for what the real listener asked the
+     daemon for (a cache hit leaves nothing to compare) *)
+  let keyf := fun (kr : keyreq) =>
+    if keyok && forallb (fun r => (kq_fast_ia r =? kr_fast_ia kr) && (kq_slow_ia r =? kr_slow_ia kr) &&
+                                  bytes_eqb (kq_fast_host r) (kr_fast_host kr)) kreqs
+    then Some zero_key else None in
   let first := match obs with (_, p) :: _ => Some (pv_rx p) | [] => None end in
   let ntpf := fun (_ : bytes) => match first with Some r => match rx_l4 r with Udp _ _ _ p => p | _ => [] end | None => [] end in
   (* whether the kernel delivered a receive timestamp (then the forwarded packet
@@ -181,33 +197,36 @@ Definition srv_step (strict keyok epochok : bool) (lp dscp : Z) (socks : list (b
                 (if keyok || negb (s_fetcher c)
                  then C13_srv_ok (s_local_port c) (s_conn_port c) (s_fetcher c) socks sender qr (pv_mac q) (pv_rev q) sobs_
                  else C13_srv_nokey_ok (s_local_port c) (s_conn_port c) socks sender qr (pv_rev q) sobs_) &&
-                (if strict && s_fetcher c then C13_srv_strict_ok (s_local_port c) epochok qr sobs_ else true) in
+                (if strict && s_fetcher c then C13_srv_strict_ok (s_local_port c) epochok qr sobs_ else true) &&
+                forallb (srv_keyreq_ok qr) kreqs && (zlen kreqs <=? 1) &&
+                (if scmpstrict then C13_srv_scmpauth_ok (s_fetcher c) qr (pv_mac q) sobs_ else true) in
   (agree, oracle).
 
-Fixpoint srv_steps (strict : bool) (lp dscp : Z) (socks : list (bytes * Z)) (ins outs : list value) : option (bool * bool) :=
+Fixpoint srv_steps (strict scmpstrict : bool) (lp dscp : Z) (socks : list (bytes * Z)) (ins outs : list value) : option (bool * bool) :=
   match ins, outs with
   | [], [] => Some (true, true)
   | VL [VZ listener; VZ sender; VB _] :: ins', VL (qv :: VL obsv :: VZ nsent :: flags) :: outs' =>
-      match parse_view qv, parse_obs obsv, srv_steps strict lp dscp socks ins' outs',
+      match parse_view qv, parse_obs obsv, srv_steps strict scmpstrict lp dscp socks ins' outs',
             match flags with
-            | [] => Some (true, true)
-            | [VZ k; VZ e] => Some (negb (k =? 0), negb (e =? 0))
+            | [] => Some (true, true, [])
+            | [VZ k; VZ e] => Some (negb (k =? 0), negb (e =? 0), [])
+            | [VZ k; VZ e; VL rs] => match parse_kreqs rs with Some l => Some (negb (k =? 0), negb (e =? 0), l) | None => None end
             | _ => None
             end with
-      | Some q, Some obs, Some (a, o), Some (keyok, epochok) =>
-          let '(a1, o1) := srv_step strict keyok epochok lp dscp socks listener sender q obs nsent in
+      | Some q, Some obs, Some (a, o), Some (keyok, epochok, kreqs) =>
+          let '(a1, o1) := srv_step strict scmpstrict keyok epochok kreqs lp dscp socks listener sender q obs nsent in
           Some (a1 && a, o1 && o)
       | _, _, _, _ => None
       end
   | _, _ => None
   end.
 
-Definition srv_case (strict : bool) (a o : list value) : verdict :=
+Definition srv_case (strict scmpstrict : bool) (a o : list value) : verdict :=
   match a, o with
   | [VL ins], [VZ 0; VL [VZ lp; VZ dscp; VZ _; VL socksv]; VL outs] =>
       match parse_socks socksv with
       | Some socks =>
-          match srv_steps strict lp dscp socks ins outs with
+          match srv_steps strict scmpstrict lp dscp socks ins outs with
           | Some (ag, orc) => relational ag orc
           | None => relational false true
           end
@@ -277,38 +296,123 @@ Definition cli_case (a o : list value) : verdict :=
   | _, _ => relational false true
   end.
 
-(* keyed client: args = scenario :: auth-enabled :: ..; outs cfg = [lia lh ria rh keyok epochok].
+(* keyed client: args = scenario :: auth-enabled :: ..; outs cfg = [lia lh]; every exchange carries
+   [ria rh keyok epochok requests]: the server queried in this measurement, whether the daemon
+   hands out a key for the pair (of the current epoch), and what the client asked the daemon.
    The client holds a key iff it is configured to authenticate and the daemon hands one out. *)
-Fixpoint cli_strict_exchanges (wanted keyok epochok : bool) (l : list value) : option bool :=
+Fixpoint cli_keyed_exchanges (strict wanted : bool) (lia : Z) (lh : bytes) (l : list value) : option (bool * bool) :=
   match l with
-  | [] => Some true
-  | VL [_; VL respsv; VL res] :: r =>
-      match parse_resps respsv, cli_strict_exchanges wanted keyok epochok r with
-      | Some resps, Some o =>
+  | [] => Some (true, true)
+  | VL [reqv; VL respsv; VL res; VL [VZ ria; VB rh; VZ keyok; VZ epochok; VL rs]] :: r =>
+      let keyok := negb (keyok =? 0) in
+      match cli_exchange (wanted && keyok) lia lh ria rh (VL [reqv; VL respsv; VL res]), parse_resps respsv, parse_kreqs rs,
+            cli_keyed_exchanges strict wanted lia lh r with
+      | Some (a1, o1), Some resps, Some kreqs, Some (a, o) =>
           let accepted := match res with [VZ 0; VZ j; VZ _] => Some (Z.to_nat j) | _ => None end in
-          Some (C13_cli_strict_ok wanted keyok epochok (map (fun r => (pv_rx (fst r), pv_mac (fst r))) resps) accepted && o)
-      | _, _ => None
+          let so := if strict then C13_cli_strict_ok wanted keyok (negb (epochok =? 0))
+                                     (map (fun r => (pv_rx (fst r), pv_mac (fst r))) resps) accepted else true in
+          (* the model's client fetches the key once per measurement when authentication is enabled, never otherwise *)
+          let fetch_agree := zlen kreqs =? (if wanted then 1 else 0) in
+          Some (a1 && fetch_agree && a, o1 && forallb (cli_keyreq_ok lia lh ria rh) kreqs && so && o)
+      | _, _, _, _ => None
       end
   | _ => None
   end.
 
 Definition cli_keyed_case (strict : bool) (a o : list value) : verdict :=
   match a, o with
-  | VZ _ :: VZ auth :: _, [VZ 0; VL [VZ lia; VB lh; VZ ria; VB rh; VZ keyok; VZ epochok]; VL exs] =>
-      let wanted := negb (auth =? 0) in
-      match cli_exchanges (wanted && negb (keyok =? 0)) lia lh ria rh exs,
-            (if strict then cli_strict_exchanges wanted (negb (keyok =? 0)) (negb (epochok =? 0)) exs else Some true) with
-      | Some (ag, orc), Some so => relational ag (orc && so)
-      | _, _ => relational false true
+  | VZ _ :: VZ auth :: _, [VZ 0; VL [VZ lia; VB lh]; VL exs] =>
+      match cli_keyed_exchanges strict (negb (auth =? 0)) lia lh exs with
+      | Some (ag, orc) => relational ag orc
+      | None => relational false true
       end
   | _, VZ 1 :: _ => relational false false
   | _, _ => relational false true
   end.
 
+(* ---- the key cache: calls [proto srcIA dstIA host time], observations [asked answer result] ---- *)
+Definition parse_hak (v : value) : option (option hakey) :=
+  match v with
+  | VL [] => Some None
+  | VL [VZ p; VZ s; VZ d; VB h; VZ nb; VZ na; VB k] => Some (Some (mkHak p s d h nb na k))
+  | _ => None
+  end.
+
+Definition hak_eqb (a b : option hakey) : bool :=
+  match a, b with
+  | None, None => true
+  | Some x, Some y => (k_proto x =? k_proto y) && (k_src_ia x =? k_src_ia y) && (k_dst_ia x =? k_dst_ia y) &&
+                      bytes_eqb (k_src_host x) (k_src_host y) && (k_nb x =? k_nb y) && (k_na x =? k_na y) && bytes_eqb (k_key x) (k_key y)
+  | _, _ => false
+  end.
+
+(* oracle, from the property: a key that is used is the key of the request (protocol, both ASes,
+   server host) for an epoch that contains the time asked for, with the bytes the daemon has for it *)
+Definition cache_res_ok (m : hameta) (ans res : option hakey) : bool :=
+  match res with
+  | None => true
+  | Some k => (k_proto k =? m_proto m) && (k_src_ia k =? m_src_ia m) && (k_dst_ia k =? m_dst_ia m) &&
+              bytes_eqb (k_src_host k) (m_src_host m) && (k_nb k <=? m_time m) && (m_time m <=? k_na k) &&
+              match ans with
+              | Some a => if (k_nb a =? k_nb k) then bytes_eqb (k_key a) (k_key k) else (m_time m =? k_na k)
+              | None => false     (* the daemon has no key for this request *)
+              end
+  end.
+
+Fixpoint cache_steps (c : kcache) (ins outs : list value) : option (bool * bool) :=
+  match ins, outs with
+  | [], [] => Some (true, true)
+  | VL [VZ p; VZ s; VZ d; VB h; VZ t] :: ins', VL [VZ asked; ansv; resv] :: outs' =>
+      match parse_hak ansv, parse_hak resv with
+      | Some ans, Some res =>
+          let m := mkMeta p s d h t in
+          let '(c', masked, mres) := kfetch (fun _ => ans) c m in
+          match cache_steps c' ins' outs' with
+          | Some (a, o) => Some (Bool.eqb masked (negb (asked =? 0)) && (asked <=? 1) && hak_eqb mres res && a, cache_res_ok m ans res && o)
+          | None => None
+          end
+      | _, _ => None
+      end
+  | _, _ => None
+  end.
+
+Definition cache_case (a o : list value) : verdict :=
+  match a, o with
+  | [VL ins], [VZ 0; VL outs] =>
+      match cache_steps [] ins outs with
+      | Some (ag, orc) => relational ag orc
+      | None => relational false true
+      end
+  | _, _ => relational false true
+  end.
+
+(* ---- the constants and option accessors of net/scion/auth.go against the model's ---- *)
+Definition consts_case (o : list value) : verdict :=
+  functional
+    [VZ spi_client; VZ spi_server; VZ auth_algorithm; VZ 12; VZ 16; VZ auth_opt_data_len;
+     VZ endhost_port; VZ ts_proto; VZ OPT_TIMESTAMP; VZ OPT_AUTH; VZ L4_UDP; VZ L4_SCMP;
+     VZ HBH_CLASS; VZ E2E_CLASS; VZ SCMP_ECHO_REQUEST; VZ SCMP_ECHO_REPLY; VZ SCMP_TRACEROUTE_REQUEST;
+     VZ SCMP_TRACEROUTE_REPLY; VZ 0; VZ 3] o
+    (* the two SPIs differ exactly in the direction bit, the low 16 bits are the protocol number *)
+    ((Z.lxor spi_client spi_server =? 65536) && (Z.land spi_server 65535 =? ts_proto) && ip_type 0 && ip_type 3).
+
+Definition authopt_case (a o : list value) : verdict :=
+  match a with
+  | [VB data; VZ spi; VZ algo] =>
+      let op := mkOpt OPT_AUTH data in
+      functional [VZ (opt_spi op); VZ (opt_algo op); VB (opt_mac op); VZ OPT_AUTH; VB (meta_bytes spi algo ++ repeat 0 16)] o
+                 (zlen (meta_bytes spi algo) =? 12)
+  | _ => relational false true
+  end.
+
 Open Scope string_scope.
 Definition glue_C13 (k : string) (a o : list value) : option verdict :=
-  if is k "srv" || is k "srv.probe" || is k "srv.keyed" then Some (srv_case false a o)
-  else if is k "srv.strict" then Some (srv_case true a o)
+  if is k "srv" || is k "srv.probe" || is k "srv.keyed" || is k "srv.par" then Some (srv_case false false a o)
+  else if is k "srv.strict" then Some (srv_case true false a o)
+  else if is k "srv.scmpauth" then Some (srv_case false true a o)
+  else if is k "drkey.cache" then Some (cache_case a o)
+  else if is k "scion.consts" then Some (consts_case o)
+  else if is k "scion.authopt" then Some (authopt_case a o)
   else if is k "cli.keyed" then Some (cli_keyed_case false a o)
   else if is k "cli.strict" then Some (cli_keyed_case true a o)
   else if is k "cli" || is k "cli.probe" then Some (cli_case a o)
